@@ -20,7 +20,7 @@ SELECT = {
     'C01': lambda l: True,
     'C03': lambda l: any(k in l for k in ('evaluated-against', 'stored-value-is', 'only-grow', 'never-removed', 'justified', 'met-fields-have-values', 'met-inputs-are-provided', 'announced-as-met', 'untouched')),
     'C04': lambda l: l.startswith('_add_form') or any(k in l for k in ('exactly-one-place', 'values-belong', 'unimplemented-lines-are', 'schedules-only', 'queues-only', 'demanded-line-is-scheduled', 'required-lines-of-loaded', 'loaded-forms', 'registered-lines', 'scheduled-lines-are-known', 'no-lost-line', 'success-means-every')),
-    'C06': lambda l: any(k in l for k in ('work', 'idle-means', 'waits-on-inputs', 'not-yet-drained', 'exactly-one-place', 'accounted-for', 'at-most-once', 'once-per-input', 'over-for-good', 'registered-one', 'values-belong', 'unimplemented-lines-are', 'stays-loaded', 'per-line-counters', 'prompt@', 'not-refused', 'remaining-keys', 'one-evaluation-per-attempt', 'justified', 'tracker-lists', 'no-answered-input', 'refusal-flag')),
+    'C06': lambda l: any(k in l for k in ('retried-only-once', 'work', 'idle-means', 'waits-on-inputs', 'not-yet-drained', 'exactly-one-place', 'accounted-for', 'at-most-once', 'once-per-input', 'over-for-good', 'registered-one', 'values-belong', 'unimplemented-lines-are', 'stays-loaded', 'per-line-counters', 'prompt@', 'not-refused', 'remaining-keys', 'one-evaluation-per-attempt', 'justified', 'tracker-lists', 'no-answered-input', 'refusal-flag')),
     'C13': lambda l: any(k in l for k in ('prompt@', 'wait-on-input', 'input-waiters', 'no-answered-input', 'remaining-keys', 'prompted-keys', 'inputs-only-grow', 'answers-given', 'every-answer-given', 'met-inputs', 'inputs-untouched', 'not-refused')),
     'C20': lambda l: any(k in l for k in ('every-answer-given', 'answers-given', 'on-exception', 'inputs-only-grow', 'inputs-untouched', 'escaping-exception', 'input-map-only-grows')),
 }
@@ -32,7 +32,7 @@ UNITS = {
     'C13': ['solve', '_attempt_field', '_add_form', '_add_form[input_only]'],
     'C20': ['solve', '_attempt_field', '_add_form', '_add_form[input_only]'],
 }
-MAINTAG = {'C01': 'C01', 'C20': 'C20', 'C14': 'C14'}
+MAINTAG = {'C01': 'C01', 'C20': 'C20', 'C14': 'C14', 'C05': 'C05'}
 
 
 # The line oracle's input outcomes (MissingInput iff declared and absent, InvalidInput iff supplied and rejected, a value only when
@@ -103,7 +103,7 @@ def gather(prop, tier, seed, extra_tasks=()):
             main_obs.append(o2)
     other = [o for o in obs if not o.id.startswith(('SOLVER/', 'MAIN/'))]
     small = []
-    if prop in ('C01', 'C03', 'C04', 'C13', 'C20'):
+    if prop in ('C01', 'C03', 'C04', 'C06', 'C13', 'C20'):
         from . import small_units
         for o in small_units.all_small():
             if prop in o.note.split(','):
